@@ -208,3 +208,53 @@ func checkFreshClaim(c *core.Ctx, l *core.Ledger, rule string, rels []string, fl
 	}
 	l.Floor(rule, floor)
 }
+
+// checkNamespaceChain (NS-CHAIN): a child namespace (the locals of one
+// generated function) must not hand out a name its ancestors hold (a package
+// import, a top-level declaration): the membership test of gen.namespace
+// consults the parent — by calling itself on the parent field of the receiver,
+// or by walking the parent chain in a loop — on the path where the own set
+// does not have the name.
+func checkNamespaceChain(c *core.Ctx, l *core.Ledger, rule string) {
+	f := c.SSAFunc(c.LookupFunc("gen", "namespace.isTaken"))
+	if f == nil {
+		l.Unk(rule, "namespace.isTaken", "", "gen.namespace.isTaken not found")
+		return
+	}
+	var parentFld *types.Var
+	if st, ok := f.Params[0].Type().Underlying().(*types.Pointer); ok {
+		if s, isS := st.Elem().Underlying().(*types.Struct); isS {
+			for i := 0; i < s.NumFields(); i++ {
+				if types.Identical(s.Field(i).Type(), f.Params[0].Type()) {
+					parentFld = s.Field(i)
+				}
+			}
+		}
+	}
+	if parentFld == nil {
+		l.Unk(rule, "namespace.isTaken", c.Rel(f.Pos()), "namespace has no field of its own pointer type (parent link)")
+		return
+	}
+	viaParent := false
+	live := liveBlocks(f)
+	core.Instrs(f, func(in ssa.Instruction) {
+		if !live[in.Block()] {
+			return
+		}
+		switch x := in.(type) {
+		case *ssa.Call:
+			if x.Call.StaticCallee() == f && len(x.Call.Args) > 0 {
+				if fld, _ := core.LoadedField(x.Call.Args[0]); fld == parentFld {
+					viaParent = true
+				}
+			}
+		case *ssa.Phi:
+			for _, e := range x.Edges {
+				if fld, base := core.LoadedField(e); fld == parentFld && base == ssa.Value(x) {
+					viaParent = true
+				}
+			}
+		}
+	})
+	l.Check(viaParent, rule, "namespace.isTaken", c.Rel(f.Pos()), "names held by the ancestors are taken in the child: the test continues with the "+parentFld.Name()+" link", "the membership test never looks at the parent namespace: a local name can shadow an import or a top-level declaration of the generated file")
+}
